@@ -271,8 +271,16 @@ fn one_history(d: &mut Draw, thorough: bool) -> Outcome {
             // generator acceptance: the fresh project analyses without errors
             // (30 % of the projects start with one injected warning, which
             // makes `check` exit 1)
-            let clean = warm.errors().is_empty() && !warm.panicked && warm.code.is_some()
-                && (warm.code == Some(0) || !warm.warnings().is_empty());
+            let expected: usize = p.modules().iter().map(|m| p.module(*m).inj.len()).sum();
+            let clean = !warm.panicked
+                && match cmd {
+                    Cmd::Check => {
+                        warm.errors().is_empty()
+                            && warm.warnings().len() == expected
+                            && warm.code == Some(if expected > 0 { 1 } else { 0 })
+                    }
+                    _ => warm.code == Some(0) && warm.diags.is_empty(),
+                };
             if !clean && cold.code == warm.code && cold.diag_multiset() == warm.diag_multiset() {
                 let why = warm
                     .diags
